@@ -14,8 +14,12 @@ import (
 	"sort"
 	"time"
 
+	coreheader "cosmossdk.io/core/header"
 	"cosmossdk.io/log"
 	sdkmath "cosmossdk.io/math"
+	"cosmossdk.io/store/cachemulti"
+	"cosmossdk.io/store/mem"
+	"cosmossdk.io/store/transient"
 	storetypes "cosmossdk.io/store/types"
 	abci "github.com/cometbft/cometbft/abci/types"
 	tmed25519 "github.com/cometbft/cometbft/crypto/ed25519"
@@ -41,6 +45,9 @@ import (
 )
 
 const ChainID = "fxcore"
+
+// BlockTime is the default spacing of blocks.
+const BlockTime = 5 * time.Second
 
 // GenesisTime is the fixed genesis time of every world.
 var GenesisTime = time.Date(2024, 1, 1, 0, 0, 0, 0, time.UTC)
@@ -92,6 +99,9 @@ type World struct {
 	Actors map[string]Actor
 	// Root is the context all exploration branches from (finalize-block state after InitChain and block 1 begin).
 	Root sdk.Context
+	// AfterBegin, if set, runs once inside the next real FinalizeBlock right after the begin-blocker.
+	AfterBegin func(ctx sdk.Context)
+	realTime   time.Time
 	KV   []*storetypes.KVStoreKey // sorted by name
 }
 
@@ -128,8 +138,20 @@ func New(cfg Config) *World {
 	if cfg.MinGasPrices != "" {
 		v.Set("minimum-gas-prices", cfg.MinGasPrices)
 	}
-	w.App = app.New(log.NewNopLogger(), dbm.NewMemDB(), nil, true, map[int64]bool{}, "/nonexistent-fxmc-home", v, baseapp.SetChainID(ChainID))
+	w.App = app.New(log.NewNopLogger(), dbm.NewMemDB(), nil, false, map[int64]bool{}, "/nonexistent-fxmc-home", v, baseapp.SetChainID(ChainID))
 	a := w.App
+	// harness-only seam (no change to /repo): the real begin-blocker followed by an optional hook that
+	// plays "governance executed this message" / scenario set-up inside a real FinalizeBlock.
+	a.SetBeginBlocker(func(ctx sdk.Context) (sdk.BeginBlock, error) {
+		r, err := a.BeginBlocker(ctx)
+		if err == nil && w.AfterBegin != nil {
+			h := w.AfterBegin
+			w.AfterBegin = nil
+			h(ctx)
+		}
+		return r, err
+	})
+	must(a.LoadLatestVersion())
 	cdc := a.AppCodec()
 	gen := app.NewDefAppGenesisByDenom(cdc, a.ModuleBasics)
 
@@ -227,19 +249,26 @@ func New(cfg Config) *World {
 	})
 	must(err)
 
-	ctx := a.GetContextForFinalizeBlock(nil)
-	hdr := tmproto.Header{ChainID: ChainID, Height: 1, Time: GenesisTime, ProposerAddress: w.Vals[0].ConsAddr()}
-	ctx = ctx.WithBlockHeader(hdr).WithProposer(w.Vals[0].ConsAddr()).WithChainID(ChainID).WithEventManager(sdk.NewEventManager())
+	// signing infos for the genesis validators (the staking hooks did not run for them)
+	ictx := a.GetContextForFinalizeBlock(nil)
 	for _, val := range w.Vals {
 		si := slashingtypes.NewValidatorSigningInfo(val.ConsAddr(), 1, 0, time.Unix(0, 0), false, 0)
-		must(a.SlashingKeeper.SetValidatorSigningInfo(ctx, val.ConsAddr(), si))
+		must(a.SlashingKeeper.SetValidatorSigningInfo(ictx, val.ConsAddr(), si))
 	}
-	ctx = ctx.WithVoteInfos(w.voteInfos())
+	// block 1 is a real, empty block
+	w.realTime = GenesisTime
+	if _, err := w.RealBlock(nil, nil, 0); err != nil {
+		panic(err)
+	}
+	// the exploration root: a branch of the committed state, inside block 2 right after its begin-blocker
+	hdr := tmproto.Header{ChainID: ChainID, Height: 2, Time: GenesisTime.Add(BlockTime), ProposerAddress: w.Vals[0].ConsAddr()}
+	ctx := sdk.NewContext(w.memCopy(), hdr, false, log.NewNopLogger())
+	ctx = w.withHeader(ctx, hdr)
 	_, err = a.PreBlocker(ctx, nil)
 	must(err)
 	_, err = a.BeginBlocker(ctx)
 	must(err)
-	w.Root = ctx
+	w.Root = ctx.WithEventManager(sdk.NewEventManager())
 
 	for _, k := range a.GetKVStoreKey() {
 		w.KV = append(w.KV, k)
@@ -384,7 +413,7 @@ func (w *World) NextBlock(ctx sdk.Context, dt time.Duration) (next sdk.Context, 
 		hdr := ctx.BlockHeader()
 		hdr.Height++
 		hdr.Time = hdr.Time.Add(dt)
-		nctx := ctx.WithBlockHeader(hdr).WithEventManager(sdk.NewEventManager()).WithVoteInfos(w.voteInfos())
+		nctx := w.withHeader(ctx, hdr).WithEventManager(sdk.NewEventManager())
 		if _, err := w.App.PreBlocker(nctx, nil); err != nil {
 			res.Err = fmt.Errorf("pre block: %w", err)
 			return
@@ -494,4 +523,81 @@ func (w *World) MustDeliver(ctx sdk.Context, msg sdk.Msg) MsgResult {
 		panic(fmt.Sprintf("setup message %s failed: %s\n%s", sdk.MsgTypeURL(msg), r, r.Stack))
 	}
 	return r
+}
+
+// withHeader gives ctx everything baseapp's FinalizeBlock puts on the block context.
+func (w *World) withHeader(ctx sdk.Context, hdr tmproto.Header) sdk.Context {
+	ctx = ctx.WithBlockHeader(hdr).
+		WithHeaderInfo(coreheader.Info{ChainID: hdr.ChainID, Height: hdr.Height, Time: hdr.Time}).
+		WithChainID(hdr.ChainID).
+		WithProposer(hdr.ProposerAddress).
+		WithVoteInfos(w.voteInfos()).
+		WithExecMode(sdk.ExecModeFinalize).
+		WithBlockGasMeter(storetypes.NewInfiniteGasMeter()).
+		WithGasMeter(storetypes.NewInfiniteGasMeter())
+	return ctx.WithConsensusParams(w.App.GetConsensusParams(ctx))
+}
+
+// RealBlock runs one block through the real ABCI path (FinalizeBlock + Commit) at the next height.
+// hook (may be nil) runs inside the block right after the begin-blocker.
+func (w *World) RealBlock(hook func(ctx sdk.Context), txs [][]byte, dt time.Duration) (*abci.ResponseFinalizeBlock, error) {
+	h := w.App.LastBlockHeight() + 1
+	w.realTime = w.realTime.Add(dt)
+	w.AfterBegin = hook
+	res, err := w.App.FinalizeBlock(&abci.RequestFinalizeBlock{
+		Height:            h,
+		Time:              w.realTime,
+		ProposerAddress:   w.Vals[0].ConsAddr(),
+		DecidedLastCommit: abci.CommitInfo{Votes: w.voteInfos()},
+		Txs:               txs,
+	})
+	w.AfterBegin = nil
+	if err != nil {
+		return nil, err
+	}
+	if _, err := w.App.Commit(); err != nil {
+		return nil, err
+	}
+	return res, nil
+}
+
+// Committed returns a read-only context over the last committed state (for digests after real blocks).
+func (w *World) Committed() sdk.Context {
+	hdr := tmproto.Header{ChainID: ChainID, Height: w.App.LastBlockHeight(), Time: w.realTime}
+	return sdk.NewContext(w.App.CommitMultiStore().CacheMultiStore(), hdr, false, log.NewNopLogger())
+}
+
+// memCopy copies the committed state into btree-backed in-memory stores (no IAVL, no goroutine
+// iterators) and returns a cache multistore over them; all exploration branches hang off it.
+func (w *World) memCopy() storetypes.CacheMultiStore {
+	cms := w.App.CommitMultiStore()
+	stores := map[storetypes.StoreKey]storetypes.CacheWrapper{}
+	copyKV := func(k storetypes.StoreKey) {
+		dst := transient.NewStore()
+		it := cms.GetKVStore(k).Iterator(nil, nil)
+		for ; it.Valid(); it.Next() {
+			dst.Set(append([]byte{}, it.Key()...), append([]byte{}, it.Value()...))
+		}
+		it.Close()
+		stores[k] = dst
+	}
+	for _, k := range w.App.GetKVStoreKey() {
+		copyKV(k)
+	}
+	for _, k := range w.App.GetMemoryStoreKey() {
+		dst := mem.NewStore()
+		it := cms.GetKVStore(k).Iterator(nil, nil)
+		for ; it.Valid(); it.Next() {
+			dst.Set(append([]byte{}, it.Key()...), append([]byte{}, it.Value()...))
+		}
+		it.Close()
+		stores[k] = dst
+	}
+	for _, k := range w.App.GetTransientStoreKey() {
+		stores[k] = transient.NewStore()
+	}
+	for _, k := range w.App.GetObjectStoreKey() {
+		stores[k] = transient.NewObjStore()
+	}
+	return cachemulti.NewFromKVStore(stores, nil, nil)
 }
